@@ -355,6 +355,10 @@ impl<'a> World<'a> {
             .find(|e| e.name == label)
             .and_then(|e| e.node_port);
         let listened: Vec<u16> = self.os.lock().listen_history.get(label).cloned().unwrap_or_default();
+        // in a lifecycle without injected failures the manager was told every port the node ever listened on (each
+        // successful start asks the node): the port pinned by the upgrade is the one the node reported last
+        let reported_last: Option<u16> = self.os.lock().reported_ports.get(label).and_then(|v| v.last().copied());
+        let strict = self.plan.mode == "plain";
         let keys: Vec<String> = ma.keys().chain(mb.keys()).cloned().collect::<std::collections::BTreeSet<_>>().into_iter().collect();
         for k in keys {
             let x = ma.get(&k).cloned().unwrap_or_else(|| "<absent>".into());
@@ -369,9 +373,20 @@ impl<'a> World<'a> {
                     && new_port.is_some()
                     && recorded_port == new_port.map(|p| p as u64)
                     && new_port.map(|p| listened.contains(&p)).unwrap_or(false);
+                if pinned && strict && new_port != reported_last {
+                    self.viol20(
+                        "upgrade.pinned_port_is_not_the_port_the_node_listens_on",
+                        &[("field", k.clone())],
+                        format!("{label}: installed without a port; the node last reported listening on {reported_last:?} (ports so far {listened:?}), the upgrade pins --port {new_port:?}: the node changes its address across the upgrade"),
+                    );
+                    continue;
+                }
                 if pinned {
                     if k == "port" {
                         self.rep.probe("port_pinned_after_start");
+                        if listened.len() > 1 {
+                            self.rep.probe("port_pinned_after_several_starts");
+                        }
                     }
                     continue;
                 }
